@@ -14,7 +14,8 @@ RULE = ("twin: dimension-wise density estimation (SpatiallyAdaptiveSingleDimensi
         "(exact duplicates whose labels are drawn independently per copy, so one site carries both labels) inside (0,1)^d with "
         "pre_scaled_data=True, or raw data that the library min-max scales itself), lambda, class labelling (none / +1,-1 / the one-vs-others weights +1 and max(-1,-n_class/n_others) of "
         "DataSet.split_one_vs_others / arbitrary real weights from {0.5,2,-3,0,1,-1,-0.25}), mass lumping on/off, rebalancing on/off, (lmin,lmax) in "
-        "{(2,4),(2,5),(3,4),(3,5)}, with reuse_old_values False and True; the refinement decisions of both runs come from the "
+        "{(2,4),(2,5),(3,4),(3,5)}, 20% 'smalldim' cases: 3 (4) dimensions, lmin=1, lmax 3-4, no lumping, 0-2 steps, so that small "
+        "component grids with two or three non-trivial dimensions share the matrix-entry cache), with reuse_old_values False and True; the refinement decisions of both runs come from the "
         "same scripted decision tape, so the histories are identical by construction. 40% of the cases are 'directed': "
         "lmin=3,lmax=5 (grids of 105..225 points, the last-set grid >=200 so that every sa(points) takes the large "
         "interpolation branch), default rebalancing, 3-5 steps of one-sided refinement towards a target next to a domain end "
@@ -26,7 +27,8 @@ RULE = ("twin: dimension-wise density estimation (SpatiallyAdaptiveSingleDimensi
         "budget. Non-trivial = some evaluation k>=1 in which the reuse run really copied an old right-hand side "
         "(find_closest_old_B returned a key on a grid with >=200 points) while the scheme also held a grid with <200 points, "
         "or some component grid changed a coordinate at unchanged shape between two consecutive evaluations whose "
-        "interpolations both took the >=200 branch. "
+        "interpolations both took the >=200 branch, or d>=3 without lumping with matrix entries taken from the cache on a scheme "
+        "holding a grid with >=2 non-trivial dimensions. "
         "paths: one grid (dimension-wise refined dyadic stripes with 150-260 interior points, or a uniform level vector "
         "with 105-381 points) + data (inside / on grid lines / extremes on the boundary / 'lattice' duplicates with per-copy "
         "labels) + random surpluses; the library's small-grid and large-grid branches of "
@@ -225,8 +227,13 @@ def run_single(case, reuse, corrupt=None):
         return o_calc(stripes, levels, cg)
 
     def w_R(stripes, levels):
+        before = len(op.old_R)
         R = o_R(stripes, levels)
-        cur["grids"][cur["lv"]]["R"] = np.array(R, dtype=float)
+        g = cur["grids"][cur["lv"]]
+        g["R"] = np.array(R, dtype=float)
+        n = len(g["R"])
+        # pairs (i<=j) whose entry was taken from the cache = all pairs - entries newly stored (reuse run, no lumping)
+        g["R_reused"] = n * (n + 1) // 2 - (len(op.old_R) - before) if (reuse and g["R"].ndim == 2) else 0
         return R
 
     def w_B(data_, stripes, levels):
@@ -306,7 +313,8 @@ def max_sample_contribution(op, stripes):
 def compare_twin(out, sub, rec_off, rec_on, op_on):
     """All clauses after every evaluation.  Returns statistics for the non-triviality rule."""
     stats = dict(reuse_rhs=0, big=0, small=0, evals=min(len(rec_off), len(rec_on)), max_dR=0.0, max_dB=0.0, max_dS=0.0,
-                 max_dD=0.0, max_dOwn=0.0, nontrivial=False, rotations=0, swaps=0, swaps_large=0, large_interp=0)
+                 max_dD=0.0, max_dOwn=0.0, nontrivial=False, rotations=0, swaps=0, swaps_large=0, large_interp=0, R_reused=0,
+                 multi_dim_grids=0)
     if len(rec_off) != len(rec_on):
         out.bad(sub + "/scheme/number-of-evaluations-differs", "off %d on %d" % (len(rec_off), len(rec_on)))
     for k, (x, y) in enumerate(zip(rec_off, rec_on)):
@@ -345,6 +353,9 @@ def compare_twin(out, sub, rec_off, rec_on, op_on):
         for lv in sorted(x["grids"]):
             gx, gy = x["grids"][lv], y["grids"][lv]
             copied = gy["key"] is not None and gy["N"] >= THRESHOLD
+            stats["R_reused"] += gy.get("R_reused", 0)
+            if sum(1 for c in gy["stripes"] if len(c) > 3) >= 2:        # >=2 dimensions with more than one interior point
+                stats["multi_dim_grids"] += 1
             if copied:
                 stats["reuse_rhs"] += 1
                 copied_here = True
@@ -436,6 +447,13 @@ def run_twin(case):
         out.cls("interpolation-large-branch")
     if case.get("directed"):
         out.cls("directed-one-sided-refinement")
+    if s["R_reused"]:
+        out.cls("R-entries-reused>0")
+    if case["dim"] >= 3 and not case["masslumping"]:
+        out.cls("d=%d&no-lumping&reuse" % case["dim"])
+        if s["R_reused"] and s["multi_dim_grids"]:
+            out.nontrivial = True
+            out.cls("d>=3&no-lumping&R-entries-reused&grid-with>=2-nontrivial-dims")
     data_, _, signs_, _ = make_data(case)
     if signs_ is not None and np.any(np.abs(np.abs(signs_) - 1.0) > 0):
         out.cls("labels!=+-1")
@@ -454,6 +472,7 @@ def run_twin(case):
     out.info = dict(max_evaluations=s["evals"], rhs_copies=s["reuse_rhs"], max_rel_dR=s["max_dR"], max_dB_equal=s["max_dB"],
                     max_rel_dS_equal=s["max_dS"], max_dDensity_equal=s["max_dD"],
                     max_dDensity_vs_own_surpluses=s["max_dOwn"], swaps=s["swaps"],
+                    R_entries_reused=s["R_reused"],
                     max_grid=max([g["N"] for r in rec_on for g in r["grids"].values()] + [0]))
     return out
 
@@ -468,7 +487,8 @@ NEAR_END = [0, 1, 2, 3, 60, 61, 62, 63]      # tape entries whose mode-5/6 targe
 def twin_strategy(tier):
     @st.composite
     def s(draw):
-        directed = draw(st.sampled_from([False, False, False, True, True]))
+        flavour = draw(st.sampled_from(["regular", "regular", "directed", "directed", "smalldim"]))
+        directed = flavour == "directed"
         kind = draw(st.sampled_from(["uniform", "clustered", "snapped", "minmax", "minmax", "lattice", "lattice"]))
         common = dict(M=draw(st.integers(20, 80)), data=kind,
                       labels=draw(st.sampled_from(["pm1", "ovo", "real", "none"] if kind == "lattice" else
@@ -484,6 +504,16 @@ def twin_strategy(tier):
                         margin=draw(st.sampled_from([0.9, 0.9, 0.5, 1.0])),
                         maxsteps=draw(st.sampled_from([3, 4, 4, 5] if tier == "quick" else [4, 5, 6])),
                         budget=800000 if tier == "quick" else 2500000, tape=tape, mode=mode, **common)
+        if flavour == "smalldim":
+            # 3 (4) dimensions, lmin=1, lmax-lmin >= 2, no lumping: small component grids with two or three non-trivial
+            # dimensions, whose matrix entries come out of the cache shared by all grids and steps (multisets of widths
+            # and distances that differ only in multiplicity exist from d=3 on)
+            dim = draw(st.sampled_from([3, 3, 3, 4]))
+            lmax = 3 if dim == 4 else draw(st.sampled_from([3, 4]))
+            tape, mode = drive.st_tape(draw, maxlen=24)
+            return dict(dim=dim, lmin=1, lmax=lmax, directed=False, masslumping=False, rebalancing=draw(st.booleans()),
+                        margin=draw(st.sampled_from([0.5, 0.9, 0.0, 1.0])), maxsteps=draw(st.sampled_from([0, 1, 1, 2])),
+                        budget=150000 if tier == "quick" else 600000, tape=tape, mode=mode, **common)
         dim = 2 if tier == "quick" else draw(st.sampled_from([2, 2, 3]))
         lmin, lmax = draw(st.sampled_from(LEVELS_2D if dim == 2 else LEVELS_3D))
         tape, mode = drive.st_tape(draw, maxlen=24)
@@ -508,7 +538,12 @@ def twin_fixed():
             dict(dim=2, lmin=2, lmax=5, M=50, data="uniform", labels="ovo", lambd=0.01, masslumping=True, rebalancing=False,
                  margin=0.5, safety=0.1, maxsteps=1, budget=450000, tape=[0], mode=4, rng=2),
             dict(dim=2, lmin=3, lmax=4, M=40, data="lattice", labels="real", lambd=0.01, masslumping=False, rebalancing=True,
-                 margin=0.5, safety=0.1, maxsteps=1, budget=450000, tape=[0], mode=4, rng=3)]
+                 margin=0.5, safety=0.1, maxsteps=1, budget=450000, tape=[0], mode=4, rng=3),
+            # 3D / 4D without lumping, lmin=1, lmax=3: grids (2,1,1) and (2,2,1) share the matrix-entry cache
+            dict(dim=3, lmin=1, lmax=3, M=60, data="uniform", labels="none", lambd=0.0, masslumping=False, rebalancing=True,
+                 margin=0.5, safety=0.1, maxsteps=1, budget=150000, tape=[3, 17, 40, 9], mode=0, rng=4),
+            dict(dim=4, lmin=1, lmax=3, M=50, data="clustered", labels="pm1", lambd=0.01, masslumping=False, rebalancing=False,
+                 margin=0.5, safety=0.1, maxsteps=0, budget=150000, tape=[0], mode=4, rng=5)]
 
 
 # ------------------------------------------------------------------------------------------------------------
